@@ -26,6 +26,10 @@ ASSUMPTIONS = [
 # symbol -> (temperature action, usage action)
 ALPHA_DAILY = ["ok", "Tnan", "Tpinf", "Tninf", "Unan", "Uzero", "TUnan"]
 ALPHA_T = ["ok", "Tnan", "Tpinf", "Tninf"]
+# finite but extreme temperatures (sentinel-like readings: 9999, -9999, 999.9): finite, so such a day is a COMPLETE day
+ALPHA_EXT = ["ok", "Tnan", "Unan", "Thuge", "Tcold", "T999"]
+ALPHA_T_EXT = ["ok", "Tnan", "Thuge", "Tcold"]
+ALPHABETS = {"daily": ALPHA_DAILY, "T": ALPHA_T, "ext": ALPHA_EXT, "T_ext": ALPHA_T_EXT}
 ZONE = "America/Chicago"
 WINDOW_START = 27  # index of the first window day inside the 40-day frame (2021-05-01 + 27 = Fri May 28: weekend + season change inside)
 
@@ -77,6 +81,25 @@ def cases(tier):
                 out.append({"family": "daily", "model": name, "usage": True, "pat": list(pat), "frame": "window_only"})
             for pat in itertools.product(range(len(ALPHA_T)), repeat=4):
                 out.append({"family": "daily", "model": name, "usage": False, "pat": list(pat), "frame": "window_only"})
+        if name in ("full_smooth", "split4"):
+            for frame in (None, "window_only"):
+                for pat in itertools.product(range(len(ALPHA_EXT)), repeat=3):
+                    out.append({"family": "daily", "model": name, "usage": True, "pat": list(pat), "alpha": "ext", **({"frame": frame} if frame else {})})
+                for pat in itertools.product(range(len(ALPHA_T_EXT)), repeat=3):
+                    out.append({"family": "daily", "model": name, "usage": False, "pat": list(pat), "alpha": "T_ext", **({"frame": frame} if frame else {})})
+    for name in BILLING_MODELS:
+        for pat in itertools.product(range(len(ALPHA_T_EXT)), repeat=3):
+            for agg in (None, "monthly", "bimonthly"):
+                for usage in (True, False):
+                    out.append({"family": "billing", "model": name, "usage": usage, "pat": list(pat), "pstate": ["ok", "ok"], "agg": agg, "alpha": "T_ext"})
+    # predict() also accepts the BASELINE data classes (in-sample prediction, or a reporting period wrapped in the baseline class)
+    for name in ("full_smooth", "split4"):
+        for pat in itertools.product(range(len(ALPHA_DAILY)), repeat=3):
+            out.append({"family": "daily", "model": name, "usage": True, "pat": list(pat), "cls": "baseline"})
+    for pat in itertools.product(range(len(ALPHA_T)), repeat=3):
+        for pstate in (["ok", "ok"], ["nanread", "ok"]):
+            for agg in (None, "monthly", "bimonthly"):
+                out.append({"family": "billing", "model": "full", "usage": True, "pat": list(pat), "pstate": pstate, "agg": agg, "cls": "baseline"})
     # billing: T pattern over 3 days straddling a period boundary x state of the two adjoining periods x aggregation
     for name in BILLING_MODELS:
         for pat in itertools.product(range(len(ALPHA_T)), repeat=3):
@@ -95,6 +118,8 @@ def _apply_T(T, pos, sym):
         T[pos] = np.inf
     elif sym == "Tninf":
         T[pos] = -np.inf
+    elif sym in ("Thuge", "Tcold", "T999"):
+        T[pos] = {"Thuge": 9999.0, "Tcold": -9999.0, "T999": 999.9}[sym]
 
 
 def build_daily(case):
@@ -111,7 +136,7 @@ def build_daily(case):
     y = 100.0 + np.arange(float(N))
     exp_T_ok = np.ones(N, bool)
     exp_U_ok = np.ones(N, bool)
-    alpha = ALPHA_DAILY if case["usage"] else ALPHA_T
+    alpha = ALPHABETS[case["alpha"]] if case.get("alpha") else (ALPHA_DAILY if case["usage"] else ALPHA_T)
     for j, s in enumerate(case["pat"]):
         sym = alpha[s]
         pos = w0 + j
@@ -135,7 +160,7 @@ def build_daily(case):
                 frame[c] = frame[c].astype(case["dtype"])
             except Exception:
                 pass
-    data = em.DailyReportingData(frame, is_electricity_data=True)
+    data = (em.DailyBaselineData if case.get("cls") == "baseline" else em.DailyReportingData)(frame, is_electricity_data=True)
     return data, idx, exp_T_ok, exp_U_ok
 
 
@@ -148,9 +173,9 @@ def build_billing(case):
     T = 35.0 + 0.33 * np.arange(float(days))
     exp_T_ok = np.ones(days, bool)
     for j, s in enumerate(case["pat"]):
-        sym = ALPHA_T[s]
+        sym = ALPHABETS[case["alpha"]][s] if case.get("alpha") else ALPHA_T[s]
         _apply_T(T, 59 + j, sym)
-        if sym != "ok":
+        if sym in ("Tnan", "Tpinf", "Tninf"):
             exp_T_ok[59 + j] = False
     temp = pd.Series(T, index=idx, name="temperature")
     exp_U_ok = np.ones(days, bool)
@@ -185,7 +210,7 @@ def build_billing(case):
     full = ds.local_days("2021-03-02", 151, ZONE)
     meter = pd.Series(reads_v, index=full[reads_t], name="observed")
     temp151 = pd.Series(np.append(T, T[-1] + 0.33), index=full, name="temperature")
-    data = em.BillingReportingData.from_series(meter, temp151, is_electricity_data=True)
+    data = (em.BillingBaselineData if case.get("cls") == "baseline" else em.BillingReportingData).from_series(meter, temp151, is_electricity_data=True)
     return data, idx, exp_T_ok, exp_U_ok
 
 
@@ -198,6 +223,8 @@ def run_case(case):
         return {"rejected": f"data class raised {type(exc).__name__}"}
     df = data.df
     key = {"family": fam, "usage": case["usage"], "agg": case.get("agg")}
+    if case.get("cls"):
+        key["cls"] = case["cls"]
     viol = []
     # what the data object itself carries (the oracle is evaluated on the data object's rows, as the statement is about
     # predict() given the reporting data object)
@@ -215,9 +242,9 @@ def run_case(case):
         return {"rejected": "data object dropped the usage column (all usage missing)"}
     try:
         if fam == "daily":
-            p = model.predict(data)
+            p = model.predict(data, **({"ignore_disqualification": True} if case.get("cls") else {}))
         else:
-            p = model.predict(data, aggregation=case.get("agg"))
+            p = model.predict(data, aggregation=case.get("agg"), **({"ignore_disqualification": True} if case.get("cls") else {}))
     except Exception as exc:
         viol.append({"clause": "predict_raised", "key": dict(key, exc=type(exc).__name__),
                      "detail": f"{type(exc).__name__}: {exc}"})
